@@ -9,9 +9,9 @@ package main
 
 import (
 	"bytes"
-	"os"
 	"encoding/binary"
 	"fmt"
+	"os"
 	"runtime"
 	"runtime/metrics"
 	"strings"
@@ -791,6 +791,15 @@ func c17TokenDamage(c *Ctx, data []byte) []byte {
 
 // ---------------------------------------------------------------------------
 
+// c17MaxLen: mostly short collections; now and then more than 15 members, where the encodings switch to their
+// wider length headers (the record stays below the size cap because collections of collections multiply).
+func c17MaxLen(c *Ctx) int {
+	if c.G(6) == 0 {
+		return 7 + c.G(14)
+	}
+	return 3
+}
+
 func c17GenRecord(c *Ctx) c17Record {
 	kind := c.G(10)
 	switch {
@@ -806,7 +815,7 @@ func c17GenRecord(c *Ctx) c17Record {
 			}
 			t = []*TDesc{obj, {K: KList, Elem: obj}, {K: KMap, Elem: obj}, {K: KTuple, Elems: []*TDesc{obj, tString}}}[c.G(4)]
 		}
-		d := genValue(c, t, 3, GenOpts{Null: true, MaxLen: 3, Collide: c.G(3) == 0})
+		d := genValue(c, t, 3, GenOpts{Null: true, MaxLen: c17MaxLen(c), Collide: c.G(3) == 0})
 		d.stripMarksDeep()
 		enc := generalize(c, t, 5)
 		b, err := ctyjson.Marshal(d.Build(), enc.Cty())
@@ -816,7 +825,7 @@ func c17GenRecord(c *Ctx) c17Record {
 		return c17Record{codec: "json", data: b, t: t, enc: enc, desc: d.String()}
 	case kind <= 5: // msgpack value, unknowns refined in every way
 		t := genType(c, 3, GenOpts{})
-		d := genValue(c, t, 3, GenOpts{Null: true, Unknown: true, Refine: true, MaxLen: 3, Collide: c.G(3) == 0})
+		d := genValue(c, t, 3, GenOpts{Null: true, Unknown: true, Refine: true, MaxLen: c17MaxLen(c), Collide: c.G(3) == 0})
 		d.stripMarksDeep()
 		v := d.Build()
 		if t.K == KString && c.G(6) == 0 {
